@@ -198,6 +198,7 @@ func (c *Ctx) RunSched(sc Sched) {
 		o := sc.Opt
 		o.Trace = true
 		vsync.NewGeneration()
+		vsched.IOPoints = false
 		bodies, check, _ := sc.Setup()
 		x := vsched.Execute(o, c.Replay.Choices, bodies)
 		v := classify(x, check)
@@ -233,6 +234,7 @@ func (c *Ctx) RunSched(sc Sched) {
 	ex.Deadline = c.TimeUp
 	ex.Setup = func() ([]func(), func(*vsched.Exec) *vsched.Violation) {
 		vsync.NewGeneration()
+		vsched.IOPoints = false
 		b, chk, out := sc.Setup()
 		return b, func(x *vsched.Exec) *vsched.Violation {
 			v := chk(x)
@@ -313,6 +315,7 @@ func (c *Ctx) gate(sc Sched) string {
 		o := sc.Opt
 		o.Trace = true
 		vsync.NewGeneration()
+		vsched.IOPoints = false
 		b, chk, out := sc.Setup()
 		x := vsched.Execute(o, prefix, b)
 		chk(x)
